@@ -1,3 +1,4 @@
+import Bptk.Core.C06
 /-
 C16 — isolation of server instances (`InstanceManager._instances[id]`, one `bptk` object per instance made by
 the factory; `BPTK_Py/server/bptkServer.py`, `bptk.begin_session / run_step / session_results / end_session`).
@@ -29,8 +30,29 @@ out or never existed touches no other instance: `Cfg.restoreOnlyAddressed`.  The
 `restoreAll`) rebuilds every instance of the external store, also those alive in memory, whose un-externalised
 state (a session ended or begun since their last run-step) is thereby lost.  A request to an id that never
 existed is answered `invalid` (`stop`: `deleted`).
+
+Wave 5 — lifecycle and values.
+* Every instance owns one factory product `Obj` (a `bptk` object with its scenario and model): scenario-level
+  settings `scn` (what `configure_settings` / the `/run` settings write into `SimulationScenario.constants/points`),
+  model-level overrides `mod` (what `change_equation` / `change_points` leave in the scenario's model: applied
+  scenario settings and step settings), and the session.  Settings are stores `key ↦ value`; keys 0,1 are constants,
+  keys ≥ 2 graphical functions (`isPts`).  Objects are owned linearly — by one instance, by the server, or (stopped
+  and kept) by the spare list — so they are held inline.
+* Lifecycle: `create` (start-instance) and the lazy restoration (`revive`) take their object from `takeObj`:
+  the factory (`Cfg.freshObjects`: an object no earlier instance has written to, `Obj.fresh`), or — the defective
+  mechanism — an object recycled from a stopped instance after `end_session()` only (`Server.spare`; its `scn` /
+  `mod` survive).  `stop` removes the instance (and spares its object under the defective mechanism), `expire`
+  removes it from memory, `Server.made` counts the factory calls.
+* Values: a step's response is the time index together with the effective settings under which every step of the
+  session's live simulation was computed (`Sess.memo`) — the data the numbers are a function of; `session-results`
+  returns the logged (time, effective settings) rows; `/run` the effective settings of the run.  Any numeric
+  simulator is a function of these (`C16_values` in Props); the harness evaluates the closed form of its SD
+  model on them and compares with the real bodies.  Under sharing (`instancesShareNothing = false`: the clones'
+  points table is the base model's) points settings go to the cell `g` when they are given (in the code: when they
+  are applied) — the one remaining simplification, on the defective branch only.
 -/
 namespace Bptk.C16
+open Bptk.C06 (Store)
 
 structure Cfg where
   instancesShareNothing : Bool
@@ -39,33 +61,50 @@ structure Cfg where
   `load_state()` + `reconstruct_instance` for each): instances alive in memory then lose their in-memory session
   and get the last externalised one. -/
   restoreOnlyAddressed : Bool
+  /-- `InstanceManager._make_bptk` hands every started / restored instance an object that no earlier instance has
+  written to (true: a new factory product each time), or (false) recycles the object of a stopped instance after
+  `end_session()` only — scenario settings and model overrides written through the old instance survive. -/
+  freshObjects : Bool
 deriving DecidableEq, Repr
 
 inductive Req where
-  | beginSession (setting : Option Int)
-  | runStep (setting : Option Int)
+  | beginSession (st : Store)     -- settings: `[]` = none
+  | runStep (st : Store)
   | results
   | endSession
   | keepAlive
   | stop
   | expire                 -- the instance's timeout elapses and a sweep removes it
   | create                 -- POST /start-instance; the new instance gets this id
-  | run (setting : Option Int)   -- POST /run on the server-level bptk
+  | run (st : Store)       -- POST /run on the server-level bptk
   | equations              -- POST /equations
   | agents                 -- POST /agents
 deriving DecidableEq, Repr
 
+/-- keys 0, 1: constants (`constant`, `k2`); keys ≥ 2: graphical functions (`tbl`, `tbl2`) -/
+def isPts (k : Nat) : Bool := 2 ≤ k
+def ptsOf (s : Store) : Store := s.filter (fun kv => isPts kv.1)
+def constsOf (s : Store) : Store := s.filter (fun kv => !isPts kv.1)
+
 structure Sess where
   clock : Nat
-  stock : Int
-  log : List (Nat × Int)
-  sknob : Option Int       -- the last setting applied within this session (what a replay re-applies)
+  live : Bool                     -- `sd_simulation` exists: the scenario settings were applied in this session
+  memo : List Store               -- effective settings under which the steps of the live simulation were computed
+  log : List (Nat × Store)        -- results log: (time, effective settings) of every step as reported
+  sset : Store                    -- session settings (begin-session): re-applied by a restore
+  slog : List Store               -- the settings passed with each step: replayed by a restore
+deriving DecidableEq, Repr
+
+/-- one factory product: a bptk object with its scenario and model -/
+structure Obj where
+  scn : Store
+  mod : Store
+  sess : Option Sess
 deriving DecidableEq, Repr
 
 structure Inst where
   alive : Bool
-  knob : Int
-  sess : Option Sess
+  obj : Obj
   saved : Option Sess      -- the externalised session state of this id (external state adapter)
 deriving DecidableEq, Repr
 
@@ -73,87 +112,116 @@ inductive Resp where
   | invalid                                  -- 500 "expecting a valid instance id"
   | noData                                   -- run-step without session: 500 "no data was returned"
   | started
-  | stepped (t : Nat) (stock : Int) (knob : Int)
-  | results (log : List (Nat × Int))
+  | stepped (t : Nat) (memo : List Store)    -- time index + the effective settings of all steps computed so far
+  | results (log : List (Nat × Store))
   | ended
   | timerReset
   | deleted
   | swept                                    -- (no response: the expiry is not a request)
   | created
-  | ran (knob : Int)                         -- /run: the results are a function of the knob the run reads
+  | ran (eff : Store)                        -- /run: the results are a function of the settings the run reads
   | names                                    -- /equations
   | noAgents                                 -- /agents on an SD model: 500 "expecting the model to have agents"
   | saveError                                -- run-step without session under an adapter: the state cannot be externalised
 deriving DecidableEq, Repr
 
-def Inst.fresh : Inst := { alive := true, knob := 1, sess := none, saved := none }
+/-- what the factory builds: the scenario lists `constant = 1`, nothing else -/
+def Obj.fresh : Obj := { scn := [(0, 1)], mod := [], sess := none }
+def Inst.fresh : Inst := { alive := true, obj := Obj.fresh, saved := none }
 
-/-- apply a setting: to the object's own scenario, or to what all factory products share.
-Returns (shared cell, own knob, the knob a simulation reads). -/
-def applySetting (c : Cfg) (g : Int) (knob : Int) (setting : Option Int) : Int × Int × Int :=
-  if c.instancesShareNothing then (g, setting.getD knob, setting.getD knob)
-  else (setting.getD g, knob, setting.getD g)
+/-- write settings into a store of the object; what all factory products share (the points table of one base
+model) is the cell `g`.  Returns (shared cell, own store). -/
+def writeMod (c : Cfg) (g m upd : Store) : Store × Store :=
+  if c.instancesShareNothing then (g, Store.update m upd)
+  else (Store.update g (ptsOf upd), Store.update m (constsOf upd))
+
+/-- the settings a simulation on the object reads -/
+def effOf (c : Cfg) (g m : Store) : Store := if c.instancesShareNothing then m else m ++ g
+
+/-- `begin_session`: settings into the scenario, caches reset, new session -/
+def objBegin (c : Cfg) (g : Store) (o : Obj) (st : Store) : Store × Obj :=
+  let w := writeMod c g o.scn st
+  (w.1, { o with scn := w.2, sess := some { clock := 0, live := false, memo := [], log := [], sset := st, slog := [] } })
+
+/-- one step of the live simulation: the first step of a session applies the scenario settings to the model,
+every step applies its own settings; the step is computed under the effective settings -/
+def objStep (c : Cfg) (g : Store) (o : Obj) (s : Sess) (st : Store) : Store × Obj × Sess :=
+  let m1 := if s.live then o.mod else Store.update o.mod o.scn
+  let w := writeMod c g m1 st
+  let e := effOf c w.1 w.2
+  let s' : Sess := { clock := s.clock + 1, live := true, memo := s.memo ++ [e], log := s.log ++ [(s.clock, e)],
+                     sset := s.sset, slog := s.slog ++ [st] }
+  (w.1, { o with mod := w.2, sess := some s' }, s')
+
+/-- `bptk._set_state` on the object `o`: session settings re-applied, logged steps replayed with their settings -/
+def replayStep (c : Cfg) (acc : Store × Store × List Store) (st : Store) : Store × Store × List Store :=
+  let w := writeMod c acc.1 acc.2.1 st
+  (w.1, w.2, acc.2.2 ++ [effOf c w.1 w.2])
+
+def replay (c : Cfg) (g : Store) (o : Obj) (s : Sess) : Store × Obj :=
+  let w := writeMod c g o.scn s.sset
+  let m1 := if s.slog.isEmpty then o.mod else Store.update o.mod w.2
+  let r := s.slog.foldl (replayStep c) (w.1, m1, [])
+  (r.1, { scn := w.2, mod := r.2.1, sess := some { s with live := !s.slog.isEmpty, memo := r.2.2 } })
 
 /-- `_ensure_instance_exists`: an instance that is not in memory is restored from the adapter, if there is one
-and it holds a state for the id: new factory product, saved session, settings re-applied / steps replayed. -/
-def revive (c : Cfg) (ad : Bool) (g : Int) (x : Inst) : Int × Inst :=
-  if x.alive then (g, x) else
+and it holds a state for the id, onto the object `src` that `_make_bptk` supplies.  Returns (cell, instance,
+whether `src` was used). -/
+def revive (c : Cfg) (ad : Bool) (g : Store) (src : Obj) (x : Inst) : Store × Inst × Bool :=
+  if x.alive then (g, x, false) else
   if ad then
     match x.saved with
-    | some s => ((applySetting c g 1 s.sknob).1,
-                 { x with alive := true, knob := (applySetting c g 1 s.sknob).2.1, sess := some s })
-    | none => (g, x)
-  else (g, x)
+    | some s => ((replay c g src s).1, { x with alive := true, obj := (replay c g src s).2 }, true)
+    | none => (g, x, false)
+  else (g, x, false)
 
-def orElse (a b : Option Int) : Option Int := match a with | some v => some v | none => b
-
-/-- `run-step` on a live instance with session `s`. -/
-def runStep (c : Cfg) (ad : Bool) (g : Int) (x : Inst) (s : Sess) (setting : Option Int) : Int × Inst × Resp :=
-  let a := applySetting c g x.knob setting
-  let s' : Sess := { clock := s.clock + 1, stock := s.stock + a.2.2, log := s.log ++ [(s.clock, s.stock)],
-                     sknob := orElse setting s.sknob }
-  (a.1, { x with knob := a.2.1, sess := some s', saved := if ad then some s' else x.saved },
-   .stepped s.clock s.stock a.2.2)
-
-/-- one request on one (existing) instance.  `g` is the process-wide cell, `ad`: an adapter is configured. -/
-def stepInst (c : Cfg) (ad : Bool) (g : Int) (x : Inst) : Req → Int × Inst × Resp
-  | .stop => (g, { x with alive := false, sess := none, saved := none }, .deleted)
-  | .expire => (g, { x with alive := false, sess := none }, .swept)
-  | .create => (g, x, .invalid)
-  | .run _ => (g, x, .invalid)
-  | .equations => (g, x, .invalid)
-  | .agents => (g, x, .invalid)
-  | .beginSession setting =>
-      let r := revive c ad g x
-      if r.2.alive then
-        let a := applySetting c r.1 r.2.knob setting
-        (a.1, { r.2 with knob := a.2.1, sess := some { clock := 0, stock := 0, log := [], sknob := setting } }, .started)
-      else (r.1, r.2, .invalid)
-  | .runStep setting =>
-      let r := revive c ad g x
-      if r.2.alive then
-        (match r.2.sess with
-         | none => (r.1, r.2, if ad then .saveError else .noData)
-         | some s => runStep c ad r.1 r.2 s setting)
-      else (r.1, r.2, .invalid)
+/-- one request on one (existing) instance.  `g` is the process-wide cell, `ad`: an adapter is configured,
+`src`: the object a restoration would be built on.  Returns (cell, instance, response, `src` used). -/
+def stepInst (c : Cfg) (ad : Bool) (g : Store) (src : Obj) (x : Inst) : Req → Store × Inst × Resp × Bool
+  | .stop => (g, { x with alive := false, obj := { x.obj with sess := none }, saved := none }, .deleted, false)
+  | .expire => (g, { x with alive := false, obj := { x.obj with sess := none } }, .swept, false)
+  | .create => (g, x, .invalid, false)
+  | .run _ => (g, x, .invalid, false)
+  | .equations => (g, x, .invalid, false)
+  | .agents => (g, x, .invalid, false)
+  | .beginSession st =>
+      let r := revive c ad g src x
+      if r.2.1.alive then
+        let b := objBegin c r.1 r.2.1.obj st
+        (b.1, { r.2.1 with obj := b.2 }, .started, r.2.2)
+      else (r.1, r.2.1, .invalid, r.2.2)
+  | .runStep st =>
+      let r := revive c ad g src x
+      if r.2.1.alive then
+        (match r.2.1.obj.sess with
+         | none => (r.1, r.2.1, if ad then .saveError else .noData, r.2.2)
+         | some s =>
+             let q := objStep c r.1 r.2.1.obj s st
+             (q.1, { r.2.1 with obj := q.2.1, saved := if ad then some q.2.2 else r.2.1.saved },
+              .stepped s.clock q.2.2.memo, r.2.2))
+      else (r.1, r.2.1, .invalid, r.2.2)
   | .results =>
-      let r := revive c ad g x
-      if r.2.alive then (r.1, r.2, .results ((r.2.sess.map (·.log)).getD [])) else (r.1, r.2, .invalid)
+      let r := revive c ad g src x
+      if r.2.1.alive then (r.1, r.2.1, .results ((r.2.1.obj.sess.map (·.log)).getD []), r.2.2)
+      else (r.1, r.2.1, .invalid, r.2.2)
   | .endSession =>
-      let r := revive c ad g x
-      if r.2.alive then (r.1, { r.2 with sess := none }, .ended) else (r.1, r.2, .invalid)
+      let r := revive c ad g src x
+      if r.2.1.alive then (r.1, { r.2.1 with obj := { r.2.1.obj with sess := none } }, .ended, r.2.2)
+      else (r.1, r.2.1, .invalid, r.2.2)
   | .keepAlive =>
-      let r := revive c ad g x
-      if r.2.alive then (r.1, r.2, .timerReset) else (r.1, r.2, .invalid)
+      let r := revive c ad g src x
+      if r.2.1.alive then (r.1, r.2.1, .timerReset, r.2.2) else (r.1, r.2.1, .invalid, r.2.2)
 
-/-- a request on the server-level bptk object -/
-def stepOwn (c : Cfg) (g : Int) (x : Inst) : Req → Int × Inst × Resp
-  | .run setting =>
-      let a := applySetting c g x.knob setting
-      (a.1, { x with knob := a.2.1 }, .ran a.2.2)
-  | .equations => (g, x, .names)
-  | .agents => (g, x, .noAgents)
-  | _ => (g, x, .invalid)
+/-- a request on the server-level bptk object: `/run` writes its settings into the scenario, resets the cache
+and runs (scenario settings applied to the model) -/
+def stepOwn (c : Cfg) (g : Store) (o : Obj) : Req → Store × Obj × Resp
+  | .run st =>
+      let w := writeMod c g o.scn st
+      let m := Store.update o.mod w.2
+      (w.1, { o with scn := w.2, mod := m }, .ran (effOf c w.1 m))
+  | .equations => (g, o, .names)
+  | .agents => (g, o, .noAgents)
+  | _ => (g, o, .invalid)
 
 def Req.serverLevel : Req → Bool
   | .run _ => true
@@ -162,22 +230,46 @@ def Req.serverLevel : Req → Bool
   | _ => false
 
 structure Server where
-  g : Int
+  g : Store
   ad : Bool
-  own : Inst
+  own : Obj
   insts : Nat → Option Inst
+  spare : List Obj       -- objects of stopped instances kept for reuse (always empty with `freshObjects`)
+  made : Nat             -- number of factory calls so far
 
 def Server.initAd (k : Nat) (ad : Bool) : Server :=
-  { g := 1, ad := ad, own := Inst.fresh, insts := fun i => if i < k then some Inst.fresh else none }
+  { g := [], ad := ad, own := Obj.fresh, insts := fun i => if i < k then some Inst.fresh else none,
+    spare := [], made := k + 1 }
 
 def Server.init (k : Nat) : Server := Server.initAd k false
 
 def updFn {α : Type} (f : Nat → α) (k : Nat) (v : α) : Nat → α := fun x => if x = k then v else f x
 
-/-- a request naming an id that never existed: `create` makes it; the instance handlers answer "expecting a valid
-instance id", stop-instance answers "Instance deleted." all the same; a timeout of nothing is nothing. -/
-def stepNone (s : Server) (i : Nat) : Req → Server × Option Resp
-  | .create => ({ s with insts := updFn s.insts i (some Inst.fresh) }, some .created)
+/-- `_make_bptk`: the object the next started / restored instance gets -/
+def takeObj (c : Cfg) (s : Server) : Obj :=
+  if c.freshObjects then Obj.fresh else
+  match s.spare with
+  | o :: _ => o
+  | [] => Obj.fresh
+
+/-- the server after `_make_bptk` was called -/
+def tookObj (c : Cfg) (s : Server) : Server :=
+  if c.freshObjects then { s with made := s.made + 1 } else
+  match s.spare with
+  | _ :: rest => { s with spare := rest }
+  | [] => { s with made := s.made + 1 }
+
+/-- `_delete_instance`: the object of an instance that is in memory goes to the spare list after `end_session()`
+(the defective mechanism only) -/
+def spareObj (c : Cfg) (s : Server) (x : Inst) (r : Req) : Server :=
+  if !c.freshObjects && x.alive && (r == .stop) then { s with spare := { x.obj with sess := none } :: s.spare } else s
+
+/-- a request naming an id that never existed: `create` makes it (on the object `_make_bptk` supplies); the
+instance handlers answer "expecting a valid instance id", stop-instance answers "Instance deleted." all the same;
+a timeout of nothing is nothing. -/
+def stepNone (c : Cfg) (s : Server) (i : Nat) : Req → Server × Option Resp
+  | .create =>
+      ({ tookObj c s with insts := updFn s.insts i (some { alive := true, obj := takeObj c s, saved := none }) }, some .created)
   | .expire => (s, none)
   | .stop => (s, some .deleted)
   | _ => (s, some .invalid)
@@ -192,12 +284,12 @@ def Req.ensures : Req → Bool
   | _ => false
 
 /-- `reconstruct_instance` from the externalised state, if the store holds one for the id -/
-def rebuild (c : Cfg) (g : Int) (x : Inst) : Inst :=
+def rebuild (c : Cfg) (g : Store) (x : Inst) : Inst :=
   match x.saved with
-  | some s => { x with alive := true, knob := (applySetting c g 1 s.sknob).2.1, sess := some s }
+  | some s => { x with alive := true, obj := (replay c g Obj.fresh s).2 }
   | none => x
 
-def restoreAll (c : Cfg) (g : Int) (f : Nat → Option Inst) : Nat → Option Inst := fun j => (f j).map (rebuild c g)
+def restoreAll (c : Cfg) (g : Store) (f : Nat → Option Inst) : Nat → Option Inst := fun j => (f j).map (rebuild c g)
 
 /-- the id is not in memory: never existed, stopped or timed out -/
 def absent (f : Nat → Option Inst) (i : Nat) : Bool :=
@@ -220,10 +312,12 @@ def step (c : Cfg) (s : Server) (op : Nat × Req) : Server × Option Resp :=
   else
     let s := preRestore c s op
     match s.insts op.1 with
-    | none => stepNone s op.1 op.2
+    | none => stepNone c s op.1 op.2
     | some x =>
-        let r := stepInst c s.ad s.g x op.2
-        ({ s with g := r.1, insts := updFn s.insts op.1 (some r.2.1) }, some r.2.2)
+        let r := stepInst c s.ad s.g (takeObj c s) x op.2
+        let s1 := if r.2.2.2 then tookObj c s else s
+        let s2 := spareObj c s1 x op.2
+        ({ s2 with g := r.1, insts := updFn s.insts op.1 (some r.2.1) }, some r.2.2.1)
 
 /-- whom a request belongs to: an instance, or (`none`) the server-level object -/
 def owner (op : Nat × Req) : Option Nat := if op.2.serverLevel then none else some op.1
@@ -246,6 +340,6 @@ def respsOf (t : Option Nat) (l : List (Option Nat × Option Resp)) : List (Opti
 def comp (t : Option Nat) (s : Server) : Option Inst :=
   match t with
   | some i => s.insts i
-  | none => some s.own
+  | none => some { alive := true, obj := s.own, saved := none }
 
 end Bptk.C16
